@@ -35,6 +35,13 @@ theorem C16_stmt_transparent (sc : Schema) (cfg : Cfg) (t : Table) (args : Args)
       simp only [Except.ok.injEq, Prod.mk.injEq] at h
       exact ⟨n, by rw [hap, ← h.1]⟩
   | failing s => simp [stmtPhase1] at h
+  | upsert rows assign =>
+    simp only [stmtPhase1] at h
+    split at h
+    · cases h
+    · rename_i t1 n hap
+      simp only [Except.ok.injEq, Prod.mk.injEq] at h
+      exact ⟨n, by rw [hap, ← h.1]⟩
 
 /-- a statement the database refuses is refused through the proxy with the same error, nothing changed -/
 theorem C16_stmt_error (sc : Schema) (cfg : Cfg) (t : Table) (args : Args) (s : Stmt) (e : SqlErr)
@@ -47,6 +54,7 @@ theorem C16_stmt_error (sc : Schema) (cfg : Cfg) (t : Table) (args : Args) (s : 
     simp only [apply, Except.error.injEq] at h
     subst h
     rfl
+  | upsert rows assign => simp only [stmtPhase1, h]
 
 /-- the only statements the proxy refuses although the database would run them: UPDATEs after which
     the rows stored under the selected keys are not as many as before (a key was changed) -/
@@ -60,6 +68,9 @@ theorem C16_only_key_changes_rejected (sc : Schema) (cfg : Cfg) (t : Table) (arg
     simp only [stmtPhase1] at h
     split at h <;> simp at h
   | failing s => simp [stmtPhase1] at h
+  | upsert rows assign =>
+    simp only [stmtPhase1] at h
+    split at h <;> simp at h
 
 /-- a local transaction that goes through phase one leaves the table the plain driver leaves -/
 theorem C16_local_transparent (sc : Schema) (cfg : Cfg) (t : Table) (ltx : LocalTx) (t' : Table) (b : Branch)
@@ -115,6 +126,7 @@ theorem C16_local_error (sc : Schema) (cfg : Cfg) (t : Table) (ltx : LocalTx) (e
           | delete w => simp [stmtPhase1, apply] at hp
           | insert rows => simp only [stmtPhase1, he] at hp; simp at hp
           | failing s => simp [apply] at he
+          | upsert rows assign => simp only [stmtPhase1, he] at hp; simp at hp
         | pkChanged => right; rfl
       | ok r =>
         obtain ⟨t1', item, keys⟩ := r
